@@ -160,6 +160,11 @@ def call(ev, name, args, kwargs, lineno, env):
         return m2(lambda x, y: isclose(x, y, rtol, atol), "b")
     if name == "isnan":
         return m1(isnan, "b")
+    if name in ("any", "all") and isinstance(args[0], (list, tuple)):
+        vals = list(args[0])
+        if name == "any":
+            return bor(*vals)
+        return band(*vals)
     if name == "any":
         a = args[0]
         if is_array(a):
@@ -194,6 +199,8 @@ def call(ev, name, args, kwargs, lineno, env):
     if name == "arange":
         if len(args) != 1:
             raise Unsupported("np.arange with start/step")
+        if isinstance(args[0], int) and not isinstance(args[0], bool):
+            return ConcreteIdx(range(args[0]))
         return Arr(args[0], lambda j: j, "i")
     if name == "isin":
         a, coll = args
@@ -305,14 +312,28 @@ def reduce_extreme(ev, op, a):
     if isinstance(a, Comp):
         raise Unsupported("np.%s of a compressed array" % op)
     ev.safety("index", compare(">=", a.n, 1), None)
-    m = fresh("ext_" + op, "int" if a.kind == "i" else "real")
-    j = fresh("j")
-    k = fresh("j")
     af = a.f
     rng = lambda v: z3.And(v >= 0, B(compare("<", v, a.n)))
+    if a.kind == "F":
+        # IEEE: np.max / np.min propagate NaN (A4).  Facts in skolemised / single-quantifier form:
+        #   forall k. isNaN(a[k]) -> isNaN(m);  forall k. not isNaN(m) -> a[k] <= m;
+        #   for the witness l0: (isNaN(m) -> isNaN(a[l0])) and (not isNaN(m) -> a[l0] == m)
+        m = fresh("fpext_" + op, V.FP64)
+        j, k = fresh("j"), fresh("j")
+        l0 = fresh("wit")
+        cmpf = z3.fpLEQ if op == "max" else z3.fpGEQ
+        ev.path.facts.append(z3.ForAll([j], z3.Implies(z3.And(rng(j), z3.fpIsNaN(af(j))), z3.fpIsNaN(m))))
+        ev.path.facts.append(z3.ForAll([k], z3.Implies(z3.And(rng(k), z3.Not(z3.fpIsNaN(m))),
+                                                       cmpf(af(k), m))))
+        ev.path.facts.append(z3.And(rng(l0), z3.Implies(z3.fpIsNaN(m), z3.fpIsNaN(af(l0))),
+                                    z3.Implies(z3.Not(z3.fpIsNaN(m)), z3.fpEQ(af(l0), m))))
+        return m
+    m = fresh("ext_" + op, "int" if a.kind == "i" else "real")
+    j = fresh("j")
+    l0 = fresh("wit")
     cmpop = "<=" if op == "max" else ">="
     ev.path.facts.append(z3.ForAll([j], z3.Implies(rng(j), B(compare(cmpop, af(j), m)))))
-    ev.path.facts.append(z3.Exists([k], z3.And(rng(k), B(compare("==", af(k), m)))))
+    ev.path.facts.append(z3.And(rng(l0), B(compare("==", af(l0), m))))
     return m
 
 
@@ -367,16 +388,20 @@ class ObjList:
         return len(self.items)
 
 
-class ConcreteIdx:
-    """np.arange(k)[a::b] for concrete k"""
+class ConcreteIdx(Arr):
+    """np.arange(k) for concrete k: an integer array with known elements (sliceable)"""
 
     def __init__(self, vals):
         self.vals = list(vals)
+        vs = self.vals
+        Arr.__init__(self, len(vs), lambda j: _select(vs, j) if vs else 0, "i")
 
     def getitem(self, ev, idx, lineno):
         if isinstance(idx, E.SliceV):
             return ConcreteIdx(self.vals[slice(idx.lo, idx.hi, idx.step)])
-        return self.vals[idx]
+        if isinstance(idx, int):
+            return self.vals[idx]
+        return ev.arr_get(self, idx, lineno, None)
 
     def concrete_iter(self):
         return list(self.vals)
